@@ -212,3 +212,143 @@ def join_parts(parts, style):
         else:
             out = f"{out} + {e}"
     return f"({out})"
+
+
+# ---------------------------------------------------------------------------- Core.tla programs
+
+PREC = {"*": 3, "/": 3, "%": 3, "+": 4, "-": 4, "<<": 5, ">>": 5, "<": 6, ">": 6, "<=": 6, ">=": 6, "in": 6,
+        "==": 7, "!=": 7, "&": 8, "^": 9, "|": 10, "&&": 11, "||": 12}
+
+
+def _is_none(e):
+    return e is None or e.get("t") == "none"
+
+
+def _field_name(nm, style):
+    if nm["t"] == "str":
+        s = from_cps(nm["s"])
+        if ident_ok(s) and style.get("ident_fields", True):
+            return s
+        return jstr(s)
+    return "[" + ast_src(nm, style) + "]"
+
+
+def _params(ps, style):
+    return ", ".join(p["x"] if _is_none(p["d"]) else f"{p['x']}={ast_src(p['d'], style)}" for p in ps)
+
+
+def _bind(b, style):
+    e = b["e"]
+    if e["t"] == "fn" and style.get("sugar", False):
+        return f"{b['x']}({_params(e['ps'], style)}) = {ast_src(e['b'], style)}"
+    return f"{b['x']} = {ast_src(e, style)}"
+
+
+def ast_prec(e):
+    t = e["t"]
+    if t == "bin":
+        return PREC[e["op"]]
+    if t == "un":
+        return 2
+    if t in ("local", "if", "fn", "err", "assert"):
+        return 13
+    if t == "insup":
+        return 6
+    if t == "num" and e["n"] < 0:
+        return 2
+    return 1
+
+
+def ast_src(e, style=None):
+    """Core.tla AST -> Jsonnet. style: full (bool) parenthesise every compound operand; sugar; ident_fields;
+    named (render positional call arguments by name where the callee's parameters are known)."""
+    style = style or {}
+    full = style.get("full", True)
+
+    def wrap(x, limit, strict=False):
+        s = ast_src(x, style)
+        p = ast_prec(x)
+        if full:
+            return s if p == 1 else f"({s})"
+        if p > limit or (strict and p == limit):
+            return f"({s})"
+        return s
+
+    t = e["t"]
+    if t == "null":
+        return "null"
+    if t in ("true", "false"):
+        return t
+    if t == "num":
+        return str(e["n"])
+    if t == "str":
+        return jstr(from_cps(e["s"]))
+    if t == "var":
+        return e["x"]
+    if t == "self":
+        return "self"
+    if t == "dollar":
+        return "$"
+    if t == "arr":
+        return "[" + ", ".join(ast_src(x, style) for x in e["es"]) + "]"
+    if t == "comp":
+        s = f"[{ast_src(e['e'], style)} for {e['x']} in {ast_src(e['over'], style)}"
+        if not _is_none(e["cond"]):
+            s += f" if {ast_src(e['cond'], style)}"
+        return s + "]"
+    if t == "obj":
+        parts = [f"local {_bind(b, style)}" for b in e["locals"]]
+        for a in e["asserts"]:
+            parts.append("assert " + ast_src(a["c"], style) + ("" if _is_none(a["m"]) else " : " + ast_src(a["m"], style)))
+        for f in e["fields"]:
+            body = f["e"]
+            if body["t"] == "fn" and style.get("sugar", False) and not f["plus"]:
+                parts.append(f"{_field_name(f['name'], style)}({_params(body['ps'], style)}){f['vis']} {ast_src(body['b'], style)}")
+            else:
+                parts.append(f"{_field_name(f['name'], style)}{'+' if f['plus'] else ''}{f['vis']} {ast_src(body, style)}")
+        return "{" + ", ".join(parts) + "}"
+    if t == "un":
+        return e["op"] + wrap(e["e"], 2)
+    if t == "bin":
+        p = PREC[e["op"]]
+        return f"{wrap(e['l'], p)} {e['op']} {wrap(e['r'], p, strict=True)}"
+    if t == "local":
+        return "local " + ", ".join(_bind(b, style) for b in e["binds"]) + "; " + ast_src(e["e"], style)
+    if t == "if":
+        s = f"if {ast_src(e['c'], style)} then {ast_src(e['a'], style)}"
+        if not _is_none(e["b"]):
+            s += f" else {ast_src(e['b'], style)}"
+        return s
+    if t == "fn":
+        return f"function({_params(e['ps'], style)}) {ast_src(e['b'], style)}"
+    if t == "app":
+        args = [ast_src(x, style) for x in e["pos"]] + [f"{n['x']}={ast_src(n['e'], style)}" for n in e["named"]]
+        return f"{wrap(e['f'], 1)}({', '.join(args)})" + (" tailstrict" if style.get("tailstrict") else "")
+    if t == "idx":
+        i = e["i"]
+        if i["t"] == "str" and ident_ok(from_cps(i["s"])) and style.get("dot", True):
+            return f"{wrap(e['e'], 1)}.{from_cps(i['s'])}"
+        return f"{wrap(e['e'], 1)}[{ast_src(i, style)}]"
+    if t == "sup":
+        i = e["i"]
+        if i["t"] == "str" and ident_ok(from_cps(i["s"])) and style.get("dot", True):
+            return f"super.{from_cps(i['s'])}"
+        return f"super[{ast_src(i, style)}]"
+    if t == "insup":
+        return f"{wrap(e['e'], 6)} in super"
+    if t == "slice":
+        part = lambda x: "" if _is_none(x) else ast_src(x, style)  # noqa: E731
+        s = f"{wrap(e['e'], 1)}[{part(e['a'])}:{part(e['b'])}"
+        if not _is_none(e["c"]):
+            s += f":{part(e['c'])}"
+        return s + "]"
+    if t == "err":
+        return "error " + ast_src(e["e"], style)
+    if t == "assert":
+        s = "assert " + ast_src(e["c"], style)
+        if not _is_none(e["m"]):
+            s += " : " + ast_src(e["m"], style)
+        return s + "; " + ast_src(e["e"], style)
+    if t == "std":
+        return f"std.{e['f']}(" + ", ".join(ast_src(x, style) for x in e["args"]) + ")"
+    raise ValueError(t)
